@@ -10,7 +10,7 @@
    other datatype.  The harness validates it against the real DisplayContext on every run. *)
 From Coq Require Import ZArith List Bool Arith Lia.
 From Coq Require String.
-From Verif Require Model.PyMini Model.PrimsRender Gen.SrcRender Proofs.SrcRender Proofs.SrcRenderTop Proofs.SrcRenderCsv Proofs.SrcRenderText Proofs.SrcRenderText2 Model.PrimsRenderPos Proofs.SrcRenderAmount Model.PrimsRenderCost Proofs.SrcRenderCost Gen.SrcRenderSet Model.PrimsRenderSet Proofs.SrcRenderSet Gen.SrcRenderInv Model.PrimsRenderInv Proofs.SrcRenderInv.
+From Verif Require Model.PyMini Model.PrimsRender Gen.SrcRender Proofs.SrcRender Proofs.SrcRenderTop Proofs.SrcRenderCsv Proofs.SrcRenderText Proofs.SrcRenderText2 Model.PrimsRenderPos Proofs.SrcRenderAmount Model.PrimsRenderCost Proofs.SrcRenderCost Gen.SrcRenderSet Model.PrimsRenderSet Proofs.SrcRenderSet Gen.SrcRenderInv Model.PrimsRenderInv Proofs.SrcRenderInv Proofs.SrcRenderInvPrep.
 Import ListNotations.
 From Verif Require Import Base.Out Base.StableSort Base.PyValue Model.Render Model.RenderCheck Proofs.RenderProofs Proofs.RenderCheckProofs.
 
@@ -804,3 +804,43 @@ Proof.
   exact (inv_column_src call_ref quant numfmt kq Hq invs p_init mw prep (PInt 0) (PBool false) ls cn ds [] (cur_empty kq)).
 Qed.
 Print Assumptions C16_source_inventory_column.
+
+(* InventoryRenderer.prepare under expand: `if self.expand: self.maxwidth = self.renderers[self.expand].prepare()` (the else
+   branch is cut off; the final `return super().prepare()` is run as the translated ColumnRenderer.prepare): the renderer the
+   key True stands for is prepared and stored under True, maxwidth = the result = Render.p_width of its state *)
+Import Verif.Proofs.SrcRenderInvPrep.
+
+Theorem C16_source_inventory_prepare_expand : forall (call_ref : nat -> list pv -> pv)
+    (numfmt : list (dec * str) -> dec -> str -> str) (kq : nat) (st : pstate) (mw prep mw' prep' ls cn ds : pv)
+    (rs : list pv),
+  cur kq rs = posr kq mw' prep' st -> no_default (p_u st) -> no_default (p_c st) ->
+  PyMini.bind (call_method call_ref (prims_invp call_ref numfmt (fresh_posr kq)) render_inv_prepare_expand
+                 (inv_env mw prep ls cn ds rs) [])
+       (fun r => call_method call_ref (prims_invp call_ref numfmt (fresh_posr kq)) render_base_prepare (fst r) []) =
+  Ok (inv_env (PInt (Z.of_nat (p_width numfmt st))) (PBool true) ls cn ds
+        (ddict_set rs (PBool true) (the_renderer numfmt kq st)),
+      PInt (Z.of_nat (p_width numfmt st))).
+Proof. exact inv_prepare_expand_src. Qed.
+Print Assumptions C16_source_inventory_prepare_expand.
+
+(* the life cycle of an expanded Inventory column through the translated statements: update() over the column's inventories
+   from the empty dict of a new renderer, prepare(), format(l) for any l; S = Render.inv_state, the width Render.p_width S
+   (= st_width of col_prepare for TInventory with expand), the cell Render.inv_format S l *)
+Theorem C16_source_inventory_lifecycle : forall (call_ref : nat -> list pv -> pv)
+    (numfmt : list (dec * str) -> dec -> str -> str) (kq : nat) (quant : dec -> str -> dec),
+  (forall d c, call_ref kq [PV (VDec d); PV (VStr c)] = PV (VDec (quant d c))) ->
+  forall (invs : list (list posn)) (mw prep ls cn ds : pv),
+  let S := inv_state quant invs in
+  let W := PInt (Z.of_nat (p_width numfmt S)) in
+  no_default (p_u S) -> no_default (p_c S) ->
+  exists rs1 rs2,
+    run_updates_p call_ref (prims_invu call_ref numfmt (fresh_posr kq)) render_inv_update_loop
+      (inv_env mw prep ls cn ds []) (map enc_inv invs) = Ok (inv_env mw prep ls cn ds rs1) /\
+    PyMini.bind (call_method call_ref (prims_invp call_ref numfmt (fresh_posr kq)) render_inv_prepare_expand
+                   (inv_env mw prep ls cn ds rs1) [])
+         (fun r => call_method call_ref (prims_invp call_ref numfmt (fresh_posr kq)) render_base_prepare (fst r) []) =
+      Ok (inv_env W (PBool true) ls cn ds rs2, W) /\
+    forall l, call_method call_ref (prims_inv call_ref numfmt) render_inv_format_expand (inv_env W (PBool true) ls cn ds rs2)
+                [enc_inv l] = Ok (inv_env W (PBool true) ls cn ds rs2, PList (map enc_s (inv_format numfmt S l))).
+Proof. exact inv_lifecycle_src. Qed.
+Print Assumptions C16_source_inventory_lifecycle.
